@@ -177,7 +177,9 @@ def main(argv):
                                               timeout=getattr(mod, "CASE_TIMEOUT", 20.0))
         for c in crashes:
             key, case, msg = mod.crash_violation(c["unit"], c["idx"], c["status"], c["stderr"])
+            res.current_unit = c["unit"]        # so that a crash that needs the unit's call history can be re-run with it
             res.violation(key, case, msg, observed=c["status"])
+            res.current_unit = None
     else:
         res = explore.run_pool(mod, units, a.jobs)
     wall = time.time() - t0
